@@ -6,13 +6,14 @@ From B39 Require Import Lib.Utf8 Proofs.LibContract Proofs.Seed Proofs.Api Proof
 (* any two (mnemonic, passphrase) pairs whose components have equal NFKD forms, inside the domain where
    the library's normaliser is UAX #15 NFKD (xsafe of the second pair follows) *)
 Theorem C11_same_nfkd : forall lib, lib_contract lib -> forall (m1 p1 m2 p2 : list byte),
+  utf8_valid m1 = true -> utf8_valid p1 = true -> utf8_valid m2 = true -> utf8_valid p2 = true ->
   nfkd m1 = nfkd m2 -> nfkd p1 = nfkd p2 -> xsafe m1 = true -> xsafe p1 = true ->
   MnemonicToSeed lib m1 p1 = MnemonicToSeed lib m2 p2.
 Proof. exact seed_same_nfkd. Qed.
 
 (* in particular a sentence of list words joined by U+3000 and the same words joined by U+0020 *)
 Theorem C11_separators : forall lib, lib_contract lib -> forall (tbl : list (list byte)) (idx : list N) (p : list byte),
-  Lib.TableWF.table_ok tbl = true -> Forall (fun i => (i < 2048)%N) idx -> xsafe p = true ->
+  Lib.TableWF.table_ok tbl = true -> Forall (fun i => (i < 2048)%N) idx -> utf8_valid p = true -> xsafe p = true ->
   MnemonicToSeed lib (join Lib.TableWF.u3000 (map (word_at tbl) idx)) p =
   MnemonicToSeed lib (join [x20] (map (word_at tbl) idx)) p.
 Proof. exact seed_separators. Qed.
